@@ -140,33 +140,4 @@ theorem bkrep_imm8_nop_modr (c : Core) (k n st : Nat) (hk : k < 256) (hn : n < 8
   rw [hN, hs, hbcn] at key
   exact key
 
-#print axioms mainPhase_split
-#print axioms cycle_one
-#print axioms cycle_two
-#print axioms book_rep_more
-#print axioms book_rep_last
-#print axioms book_loop_back
-#print axioms book_loop_exit
-#print axioms book_loop_inside
-#print axioms book_bcn_range
-#print axioms cycle_bcn_range
-#print axioms rep_unrolled
-#print axioms rep_program
-#print axioms rep_imm8_modr
-#print axioms bkrep_imm8_nop_modr
-#print axioms blockRepeat_push
-#print axioms blockRepeat_full
-#print axioms break_spec
-#print axioms nested_exit
-#print axioms outer_exit
-#print axioms bkrep_unrolled
-#print axioms bkrep_counter
-#print axioms bkrep_program
-#print axioms plain_modr
-#print axioms plain_add_Ab_Bx
-#print axioms storeBlockRepeat_run
-#print axioms restoreBlockRepeat_run
-#print axioms restore_store_words
-#print axioms restore_store_regs
-#print axioms loopView_determines
 end Teakra
